@@ -17,7 +17,10 @@ the MODEL executed one of the hazardous operations (accepted by the suite's filt
   large-map-set-delete-aliases           `x[k] = v`, `x.k = v`, `del(x[k])`, `del(x.k)` on a *BigMap
   large-array-append-shares-capacity     `l + r` with an array longer than `maxSmallArray` on the left
 
-Every other difference (aliasing of SMALL containers, a difference before any hazardous
+AND the name the operation went through may, by the syntactic may-alias analysis below, reach
+storage shared with another live name (for the append class: the base of the `+`).
+Every other difference (a write through a name that owns fresh storage — e.g. the result of `+` on
+maps —, aliasing of SMALL containers, a difference before any hazardous
 operation, a changed threshold making a 6-element array alias, ...) stays a disagreement and,
 through the statements, a violation.  The class reported is that of the first hazard noted in
 the first differing input, else of the most recent hazard before it.  With `strict` (used by
@@ -95,6 +98,185 @@ where
     match (hz.filter (!·.isEmpty)).getLast? with
     | some l => hazardClass (l.getLast?.getD "")
     | none => ""
+
+/-! ### syntactic may-alias analysis
+
+Which names may share storage ON THE GO HEAP, decided from the session's syntax trees (and, for `+`,
+from the kind of the left operand in the model's dump of the globals).  Names are partitioned in
+alias groups.  A name joins the group(s) of the SOURCES of the expression bound to it — exactly the
+ways the Go code shares the storage of large containers:
+  plain copy `b = a`; a bare identifier passed as argument (the parameter joins its group, and the
+  call's result may alias its arguments and what the body mentions); a container literal holding
+  identifiers (`[a, a]`, `{"k": a}`: containment) and reading an element back (`c[0]`, `m.k`);
+  `rest(a)`, `a[i:j]`; the loop variable of `for e = a`; `x + y` on ARRAYS (append may reuse the left
+  operand's spare capacity; elements are shared).
+FRESH (own storage): literals without identifiers, `*`, every other operator, and `+` with a MAP on the
+left (`Append` always builds a new map) — so `cp = big + {}` puts `cp` alone in a new group.
+A hazardous operation (in-place write through name `n`, or append with base `n`) can explain a
+difference only if, at some point during that input, `n`'s group had another live member. -/
+
+structure Alias where
+  grp : List (String × Nat) := []
+  next : Nat := 0
+  fns : List (String × (List String × Node)) := []
+  /-- names whose group had at least two members at some point during the current input -/
+  shared : List String := []
+  /-- the input ended in an error (some statements did not run): a rebinding keeps the old membership too -/
+  additive : Bool := false
+
+namespace Alias
+
+def groupOf (a : Alias) (n : String) : Option Nat := a.grp.lookup n
+
+def mark (a : Alias) : Alias :=
+  let sh := a.grp.filterMap fun (n, g) =>
+    if (a.grp.filter fun kv => kv.2 == g).length ≥ 2 && !a.shared.contains n then some n else none
+  { a with shared := a.shared ++ sh }
+
+def setGrp (grp : List (String × Nat)) (n : String) (g : Nat) : List (String × Nat) :=
+  (n, g) :: grp.filter (·.1 != n)
+
+/-- `n` is (re)bound to a value that may alias the names `srcs` -/
+def bind (a : Alias) (n : String) (srcs : List String) : Alias :=
+  let srcs := if a.additive then n :: srcs else srcs
+  match (srcs.filterMap a.groupOf).eraseDups with
+  | [] => mark { a with grp := setGrp a.grp n a.next, next := a.next + 1 }
+  | t :: others =>
+    let grp := a.grp.map fun (m, g) => if others.contains g then (m, t) else (m, g)
+    mark { a with grp := setGrp grp n t }
+
+/-- `n` now CONTAINS values that may alias `srcs` (index assignment `n[i] = v`) -/
+def absorb (a : Alias) (n : String) (srcs : List String) : Alias :=
+  match ((n :: srcs).filterMap a.groupOf).eraseDups with
+  | [] => a
+  | t :: others =>
+    mark { a with grp := a.grp.map fun (m, g) => if others.contains g then (m, t) else (m, g) }
+
+def remove (a : Alias) (n : String) : Alias :=
+  if a.additive then a else { a with grp := a.grp.filter (·.1 != n) }
+
+end Alias
+
+partial def identsIn : Node → List String
+  | .ident n => [n]
+  | .pre _ r => identsIn r
+  | .post _ n => [n]
+  | .inf _ l r => identsIn l ++ identsIn r
+  | .stmts l => l.flatMap identsIn
+  | .ifE c a b => identsIn c ++ identsIn a ++ identsIn b
+  | .forE c b => identsIn c ++ identsIn b
+  | .ret v => identsIn v
+  | .builtin _ ps => ps.flatMap identsIn
+  | .fn _ _ _ _ _ b => identsIn b
+  | .call f as => identsIn f ++ as.flatMap identsIn
+  | .arr els => els.flatMap identsIn
+  | .mapLit ks vs => ks.flatMap identsIn ++ vs.flatMap identsIn
+  | .idx _ l i => identsIn l ++ identsIn i
+  | _ => []
+
+/-- `isMap n`: the model's dump shows the global `n` bound to a map (`none` = unknown) -/
+partial def sources (a : Alias) (isMap : String → Option Bool) : Node → List String
+  | .ident n => [n]
+  | .arr els => els.flatMap (sources a isMap)
+  | .mapLit ks vs => ks.flatMap (sources a isMap) ++ vs.flatMap (sources a isMap)
+  | .idx _ l _ => sources a isMap l
+  | .inf "PLUS" l r =>
+    let mapSide : Node → Bool := fun x => match x with
+      | .mapLit .. => true
+      | .ident n => isMap n == some true
+      | _ => false
+    -- map + map builds a new map; with an ARRAY on the left the right operand (whatever it is) becomes an element
+    if mapSide l then [] else sources a isMap l ++ sources a isMap r
+  | .inf _ _ _ => []
+  | .pre _ _ | .post _ _ | .int _ | .float _ | .str _ | .bool _ | .none | .ctl _ | .comment | .macroLit .. => []
+  | .fn .. => []
+  | .builtin "LEN" _ => []
+  | .builtin _ ps => ps.flatMap (sources a isMap)
+  | .call f as =>
+    let fromArgs := as.flatMap (sources a isMap)
+    match f with
+    | .ident fname => match a.fns.lookup fname with
+      | some (params, body) => fromArgs ++ (identsIn body).filter (!params.contains ·)
+      | none => fromArgs
+    | .fn _ params _ _ _ body => fromArgs ++ (identsIn body).filter (!params.contains ·)
+    | other => fromArgs ++ identsIn other
+  | .ifE _ x y => sources a isMap x ++ sources a isMap y
+  | .stmts l => l.flatMap (sources a isMap)
+  | .ret v => sources a isMap v
+  | other => identsIn other
+
+/-- effects of evaluating a node on the alias groups (statements in order; loop bodies twice; callee
+bodies inlined up to `depth` calls) -/
+partial def walk (isMap : String → Option Bool) (depth : Nat) (a : Alias) : Node → Alias
+  | .stmts l => l.foldl (walk isMap depth) a
+  | .inf op l r =>
+    if op == "ASSIGN" || op == "DEFINE" then
+      let a := walk isMap depth a r
+      let a := match r, l with
+        | .fn _ params _ _ _ body, .ident n => { a with fns := (n, (params, body)) :: a.fns }
+        | _, _ => a
+      match l with
+      | .ident n => a.bind n (sources a isMap r)
+      | .idx _ (.ident n) i => (walk isMap depth a i).absorb n (sources a isMap r)
+      | other => walk isMap depth a other
+    else walk isMap depth (walk isMap depth a l) r
+  | .forE c body =>
+    let a := match c with
+      | .inf _ (.ident v) r => (walk isMap depth a r).bind v (sources a isMap r)
+      | other => walk isMap depth a other
+    walk isMap depth (walk isMap depth a body) body
+  | .ifE c x y => walk isMap depth (walk isMap depth (walk isMap depth a c) x) y
+  | .ret v => walk isMap depth a v
+  | .pre _ r => walk isMap depth a r
+  | .arr els => els.foldl (walk isMap depth) a
+  | .mapLit ks vs => vs.foldl (walk isMap depth) (ks.foldl (walk isMap depth) a)
+  | .idx _ l i => walk isMap depth (walk isMap depth a l) i
+  | .builtin "DEL" [.ident n] => a.remove n
+  | .builtin _ ps => ps.foldl (walk isMap depth) a
+  | .fn name params _ _ _ body =>
+    match name with
+    | some n => { a with fns := (n, (params, body)) :: a.fns }
+    | none => a
+  | .call f as =>
+    let a := as.foldl (walk isMap depth) (walk isMap depth a f)
+    let callee : Option (List String × Node) := match f with
+      | .ident fname => a.fns.lookup fname
+      | .fn _ params _ _ _ body => some (params, body)
+      | _ => none
+    match callee, depth with
+    | some (params, body), d + 1 =>
+      let a := (params.zip as).foldl (fun a (p, arg) => a.bind p (sources a isMap arg)) a
+      walk isMap d a body
+    | _, _ => a
+  | _ => a
+
+/-- per input: the names through which an in-place operation may reach storage shared with another
+live name.  `dumps` = the model's observations (for the live globals and their kinds). -/
+def sharedPerInput (asts : List String) (dumps : List String) : List (List String) :=
+  let rec go (asts : List String) (dumps : List String) (prev : List (String × String)) (a : Alias)
+      (acc : List (List String)) : List (List String) :=
+    match asts, dumps with
+    | ast :: asts', dump :: dumps' =>
+      let cur := globalsOf dump
+      -- only live globals survive between inputs (locals and parameters of finished calls do not)
+      let a := { a with grp := a.grp.filter (fun kv => (prev.lookup kv.1).isSome), shared := [],
+                        additive := field dump "e" != "0" || field dump "p" != "-" }
+      let isMap : String → Option Bool := fun n =>
+        match prev.lookup n with
+        | some v => some (v.startsWith "m[")
+        | none => (cur.lookup n).map (·.startsWith "m[")
+      let a := a.mark
+      let a := match parseAst ast with
+        | some prog => walk isMap 6 a prog
+        | none => a
+      go asts' dumps' (if dump == "P" then prev else cur) a (acc ++ [a.shared])
+    | _, _ => acc
+  termination_by asts.length
+  go asts dumps [] {} []
+
+/-- keep only the hazards whose name may reach shared storage in that input -/
+def sharedHazards (asts : List String) (dumps : List String) (hazards : List (List String)) : List (List String) :=
+  (hazards.zip (sharedPerInput asts dumps)).map fun (hz, sh) => hz.filter fun h => sh.contains (hazardName h)
 
 /-- combine the per-configuration classifications: (some difference?, all explained?, class) -/
 def combine (cs : List (Option String)) : Bool × Bool × String :=
